@@ -817,6 +817,21 @@ impl Gen
             dirs.push("out/deep".to_string());
             dirs.push("out/deep/er".to_string());
         }
+        // configuration: where ruler keeps its state and what the rules files are called
+        if self.rng.chance(1, 4)
+        {
+            match self.rng.below(3)
+            {
+                0 => { dirs.push("state".to_string()); dirs.push("@ruler=state/rd".to_string()); },
+                1 => dirs.push("@ruler=rd.cache".to_string()),
+                _ => { dirs.push(".config".to_string()); dirs.push("@ruler=.config/ruler-dir".to_string()); },
+            }
+        }
+        if self.rng.chance(1, 5)
+        {
+            if self.rng.chance(1, 2) { dirs.push("rules".to_string()); dirs.push("@rules=rules/main.rules,rules/extra.rules".to_string()); }
+            else { dirs.push("@rules=Rulesfile,Rulesfile.local".to_string()); }
+        }
         Case
         {
             rules : initial_rules,
